@@ -344,6 +344,8 @@ def _immut(spec, ctx, R):
         wr = rec["error"] is not None and ("read-only" in rec["error"] or "readonly" in rec["error"] or "WRITEABLE" in rec["error"])
         ctx.check("immut:layout_accepted", rec["error"] is None, site=name, tags=[lay, st] + (["write_attempt_on_readonly_argument"] if wr else []),
                   detail={"layout": lay, "size": size, "error": rec["error"]})
+        if rec["error"] is None and "result_retained" in rec:
+            ctx.check("repeat:earlier_result_unchanged_by_later_call", bool(rec["result_retained"]), site=name, tags=[lay, st])
         if rec["error"] is None:
             ctx.check("repeat:same_arguments_same_result", rec.get("repeat_digest") == rec["digest"], site=name, tags=[lay, st],
                       detail={"layout": lay, "size": size})
